@@ -1,9 +1,9 @@
 SPECIFICATION Spec
 CONSTANTS
-  Dev = {"sticky-succs"}
-  MaxCalls = 3
+  Dev = {"ops-succs"}
+  MaxCalls = 1
   Classes = FALSE
-  MaxOps = 5
+  MaxOps = 8
 INVARIANTS SuccsLive
 VIEW View
 CHECK_DEADLOCK FALSE
